@@ -109,7 +109,7 @@ class CompilerPolicy(symex.Policy):
             m = path[len(CC):]
             if m in LEVELS and not (m == self.root and False):
                 k = sum(1 for e in st.trace if e[0] == "parse")
-                st.event("parse", k, m, tuple(render(a) for a in args[1:]))
+                st.event("parse", k, m, tuple(render(a) for a in args[1:]), render(args[0]) if args else "?")
                 dty = t.get("dty", "")
                 cp = child_prog(k, m)
                 # a level function that receives an already parsed node (parse_turnary_expression(lhs_node, ..)) reports that node's
@@ -507,6 +507,7 @@ def val_json(v, st, depth=0):
 def path_json(root, r):
     parses = [(e[1], e[2]) for e in r.trace if e[0] == "parse"]
     d = {"root": root, "kind": r.kind, "details": sorted(r.details), "parses": parses,
+         "parse_recv": [(e[1], e[2], e[4] if len(e) > 4 else "self") for e in r.trace if e[0] == "parse"],
          "cond": [list(map(lambda z: list(z) if isinstance(z, tuple) else z, c)) for c in r.cond],
          "toks": [(e[1], e[2]) for e in r.trace if e[0] == "tok"],
          "labels": sum(1 for e in r.trace if e[0] == "label"),
